@@ -181,7 +181,7 @@ pub fn run(ctx: &Ctx) -> i32 {
     let mut fams: Vec<InputFam> = vec![inflate_family(&bases), bombs(thorough), dense(thorough)];
     // the C04 corruption families under the memory oracle as well (byte sweeps only in thorough)
     for f in all_families(ctx.tier) {
-        if f.name.starts_with("M1") && !thorough {
+        if (f.name.starts_with("M1") && !thorough) || f.name == "M2-structural-big" {
             continue;
         }
         fams.push(f);
